@@ -44,7 +44,7 @@ def main():
     else:
         from vrpqubo.examples.mirp_random import get_generator
         gen_ = get_generator(job["ns"], job["nd"], job["horizon"])
-        gen_.seed = job["seed"]
+        gen_.seed = {"npint64": np.int64, "npint32": np.int32, "npuint32": np.uint32}.get(job.get("seed_type"), int)(job["seed"])
         m = gen_.get_random_mirp(reset_seed=True)
         st = MU.mirp_state(m)
         out["instance"] = hashlib.sha1(repr((sorted(st["mapping"].items()), [tuple(map(str, n)) for n in st["g"]["nodes"]],
